@@ -15,7 +15,7 @@ func TestClassTable(t *testing.T) {
 	}
 	d := gen.DataSpec{Title: "t", NItems: 1, NNames: 1, Tag: 1}
 	for _, fc := range failClasses {
-		files := map[string]string{"/t.jet": gen.ZBlock + "\nA{{mark(1)}}B\nsecond " + fc.Text + " tail\n", "/zinc.jet": "zinc"}
+		files := map[string]string{"/t.jet": gen.ZBlock + "\nA{{mark(1)}}B\nsecond " + fc.Text + " tail\n", "/zinc.jet": "zinc", "/zbroken.jet": "broken {{ if }} template", "/zbadref.jet": `{{ extends "/zz/nowhere.jet" }}x`}
 		set, _ := NewSet(files)
 		o := Exec(set, Call{Tmpl: "/t.jet", Data: d}, "x")
 		f, l, ok := position(o.Err, []string{"/t.jet", "/zinc.jet"})
